@@ -76,6 +76,50 @@ def describe(c):
         c.get("log"), " out=%s flag=%s" % (c.get("out"), c.get("flag")) if k == "trans" else "", c.get("res"))
 
 
+def eval_cases(preamble, case_terms, shard=600, sub=8, timeout=900, tag="c42"):
+    """vlib.coq_eval_cases with one twist: coqc's front end is super-linear in the length of a single
+    command, so every shard is written as many small list definitions that are appended.
+    Returns (bad_indices, log, wall) exactly like vlib.coq_eval_cases."""
+    import re
+    import time
+    from concurrent.futures import ThreadPoolExecutor
+    d = os.path.join(vlib.BUILD, "cases")
+    os.makedirs(d, exist_ok=True)
+    shards = [case_terms[i:i + shard] for i in range(0, len(case_terms), shard)]
+    t0 = time.time()
+
+    def one(k):
+        path = os.path.join(d, "%s_%d.v" % (tag, k))
+        names = []
+        with open(path, "w") as f:
+            f.write(preamble + "\n")
+            for j in range(0, len(shards[k]), sub):
+                names.append("cs%d" % (j // sub))
+                f.write("Definition %s : list c42_case := [\n%s\n].\n" % (names[-1], ";\n".join(shards[k][j:j + sub])))
+            f.write("Definition cases : list c42_case := concat [%s].\n" % "; ".join(names))
+            f.write("Definition bad := bad_idx c42_check cases.\n")
+            f.write("Eval vm_compute in (Z.of_nat (length cases), bad).\n")
+        rc, out, _ = vlib.sh(["coqc", "-noglob", "-Q", vlib.COQ, "DF", "-o", path + "o", path], cwd=vlib.COQ, timeout=timeout)
+        if rc != 0:
+            return k, None, out
+        flat = " ".join(out.split())
+        m = re.search(r"= \((\d+)(?:%Z)?, (\[.*?\]|nil)(?:%list)?\)", flat)
+        if not m or int(m.group(1)) != len(shards[k]):
+            return k, None, "unexpected coqc output / case count mismatch\n" + out
+        body = m.group(2)
+        return k, ([] if body == "nil" else [int(x) for x in re.findall(r"-?\d+", body)]), out
+
+    bad, logs = [], []
+    with ThreadPoolExecutor(max_workers=16) as ex:
+        for k, idx, out in ex.map(one, range(len(shards))):
+            if idx is None:
+                logs.append("shard %d failed:\n%s" % (k, out[-3000:]))
+                bad.append(("shard-error", k))
+            else:
+                bad += [k * shard + i for i in idx]
+    return bad, "\n".join(logs), time.time() - t0
+
+
 def run(pid, tier, seed, replay):
     ck = Check(pid, tier, seed, level="proof")
     n = 700 if tier == "quick" else 14000
@@ -105,7 +149,7 @@ def run(pid, tier, seed, replay):
     corr = [c for c in cases if not c.get("panic")]
     if os.path.exists(os.path.join(vlib.COQ, "Model/TreeNode.vo")):
         pre = "From DF Require Import Base.Prelude Model.TreeNode.\nOpen Scope Z_scope."
-        bad, lg, dt = vlib.coq_eval_cases(pre, "c42_case", "c42_check", [render(c) for c in corr], shard=900, tag="c42")
+        bad, lg, dt = eval_cases(pre, [render(c) for c in corr])
         ck.log("correspondence: %d cases, %d disagreements (%.1fs)" % (len(corr), len(bad), dt))
         if bad:
             first = bad[0]
